@@ -1105,7 +1105,9 @@ func runConcSample(bin, prop string, seed uint64, thorough bool) *RunReport {
 		r.ExecStep(st)
 	}
 	inflated := false
-	if (prop == "C01" || prop == "C02") && rng.Chance(1, 6) {
+	if (prop == "C01" || prop == "C02") && rng.Chance(1, 6) || prop != "C01" && prop != "C02" && prop != "C13" && !r.M.NoStore && len(r.M.Tasks()) > 0 && rng.Chance(1, 8) {
+		// (log length is part of every concurrent property's quantifier: a long
+		// replay gives the runtime of the lock holder time for a GC cycle)
 		inflated = true
 		st := Step{Disk: &DiskOp{Kind: "inflate", N: 12 + rng.Intn(10), Pos: rng.Intn(1 << 16)}}
 		sc.Steps = append(sc.Steps, st)
